@@ -48,6 +48,7 @@ type Case struct {
 	Ended  []int  `json:"ended"`            // contexts cancelled before NewPool
 	PreArm string `json:"prearm,omitempty"` // trap armed before NewPool
 	Ops    []Op   `json:"ops"`
+	Seed   uint64 `json:"seed,omitempty"` // storm: seed of the goroutines' yields
 }
 
 func (c *Case) key() string {
@@ -55,7 +56,8 @@ func (c *Case) key() string {
 		I, E []int
 		P    string
 		O    []Op
-	}{c.Init, c.Ended, c.PreArm, c.Ops})
+		S    uint64
+	}{c.Init, c.Ended, c.PreArm, c.Ops, c.Seed})
 	return string(b)
 }
 
@@ -446,6 +448,9 @@ func (s *scenario) doCancel() {
 }
 
 func runCase(c *Case) *outcome {
+	if c.Family == "storm" {
+		return runStorm(c)
+	}
 	out := &outcome{}
 	s := &scenario{c: c, out: out, ctxs: map[int]*ctxPair{}, member: map[int]bool{}, offered: map[int]bool{}}
 	// no watcher of an earlier scenario may be around
@@ -608,6 +613,247 @@ func dedup(xs []int) []int {
 	return out
 }
 
+// ---------------------------------------------------------------- storm: unsynchronised goroutines, monitors only
+//
+// The ends, the Adds, an optional Cancel and a poller run in their own goroutines with seeded
+// yields between operations.  No trace is produced (the order of concurrent events is not
+// observable); the monitors are phrased so that they are sound under concurrency:
+//   * a context is a definite member if it was passed at creation, or if after its Add returned
+//     the pool context was still live and some definite member's cancel had not even been started;
+//   * never-early: the poller snapshots the definite members, then reads Err(), then reads the
+//     "cancel started" flags: done ∧ Cancel not started ∧ a snapshot member whose cancel has not
+//     started ⇒ violation;
+//   * Size is within [0, live-at-creation + Adds started], 0 once Cancel returned;
+//   * at the end (quiescent): Cancel called or every offered context ended ⇒ done and watcher gone.
+
+func runStorm(c *Case) *outcome {
+	out := &outcome{}
+	if _, _, n := settle(); n != 0 {
+		out.notes = append(out.notes, fmt.Sprintf("stale watcher goroutines before storm: %d", n))
+	}
+	tr.disarmAll()
+	const maxID = 16
+	type cx struct {
+		ctx     context.Context
+		cancel  context.CancelFunc
+		started atomic.Bool // cancel() about to be called (or context already ended)
+	}
+	var ctxs [maxID]*cx
+	for i := range ctxs {
+		ctxs[i] = &cx{}
+		if i == 0 {
+			ctxs[i].ctx, ctxs[i].cancel = context.Background(), func() {}
+		} else {
+			ctxs[i].ctx, ctxs[i].cancel = context.WithCancel(context.Background())
+		}
+	}
+	var mu sync.Mutex
+	viols := map[string]string{}
+	violate := func(id, what string) {
+		mu.Lock()
+		if _, ok := viols[id]; !ok {
+			viols[id] = what
+		}
+		mu.Unlock()
+	}
+	var member [maxID]atomic.Bool
+	offered := map[int]bool{}
+	ended := map[int]bool{}
+	for _, id := range c.Ended {
+		if id > 0 && id < maxID {
+			ctxs[id].started.Store(true)
+			ctxs[id].cancel()
+			ended[id] = true
+		}
+	}
+	args := []context.Context{}
+	liveAtCreation := 0
+	for _, id := range c.Init {
+		args = append(args, ctxs[id].ctx)
+		member[id].Store(true)
+		offered[id] = true
+		if !ended[id] {
+			liveAtCreation++
+		}
+	}
+	var pool *kitctx.Pool
+	if r := call(func() { pool = kitctx.NewPool(args...) }); r != "ok" {
+		out.viols = append(out.viols, viol{"op-" + strings.SplitN(r, ":", 2)[0], "NewPool: " + r})
+		return out
+	}
+	var ends, adds []int
+	cancelAt := -1
+	for i, op := range c.Ops {
+		switch op.K {
+		case "end":
+			ends = append(ends, op.C...)
+		case "add":
+			adds = append(adds, op.C[0])
+			offered[op.C[0]] = true
+		case "cancel":
+			cancelAt = i
+		}
+	}
+	var cancelStarted, cancelReturned atomic.Bool
+	var addsStarted atomic.Int32
+	anyLiveMember := func() bool {
+		for i := range member {
+			if member[i].Load() && !ctxs[i].started.Load() {
+				return true
+			}
+		}
+		return false
+	}
+	yield := func(r *lib.Rand) {
+		for n := r.Intn(4); n > 0; n-- {
+			runtime.Gosched()
+		}
+		if r.Intn(8) == 0 {
+			time.Sleep(time.Duration(r.Intn(60)) * time.Microsecond)
+		}
+	}
+	var wg sync.WaitGroup
+	stopPoll := make(chan struct{})
+	run := func(seed uint64, f func(r *lib.Rand)) {
+		wg.Add(1)
+		go func() {
+			defer wg.Done()
+			defer func() {
+				if r := recover(); r != nil {
+					violate("op-panic", fmt.Sprint("storm goroutine: ", r))
+				}
+			}()
+			f(lib.NewRand(seed))
+		}()
+	}
+	run(c.Seed^1, func(r *lib.Rand) {
+		for _, id := range ends {
+			yield(r)
+			if id == 0 {
+				continue
+			}
+			ctxs[id].started.Store(true)
+			ctxs[id].cancel()
+		}
+	})
+	run(c.Seed^2, func(r *lib.Rand) {
+		for _, id := range adds {
+			yield(r)
+			addsStarted.Add(1)
+			pool.Add(ctxs[id].ctx)
+			if pool.Err() == nil && anyLiveMember() {
+				member[id].Store(true)
+			}
+		}
+	})
+	if cancelAt >= 0 {
+		run(c.Seed^3, func(r *lib.Rand) {
+			for i := 0; i < cancelAt; i++ {
+				yield(r)
+			}
+			cancelStarted.Store(true)
+			pool.Cancel()
+			cancelReturned.Store(true)
+		})
+	}
+	var pollWG sync.WaitGroup
+	pollWG.Add(1)
+	polls := 0
+	go func() {
+		defer pollWG.Done()
+		for {
+			select {
+			case <-stopPoll:
+				return
+			default:
+			}
+			polls++
+			var snap []int
+			for i := range member {
+				if member[i].Load() {
+					snap = append(snap, i)
+				}
+			}
+			cancelled := cancelStarted.Load()
+			wasReturned := cancelReturned.Load()
+			done := pool.Err() != nil
+			if done && !cancelled && !cancelStarted.Load() {
+				for _, i := range snap {
+					if !ctxs[i].started.Load() {
+						violate("done-while-member-live", fmt.Sprintf("storm: pool context done although member ctx%d's cancel had not started and Cancel had not been called", i))
+					}
+				}
+			}
+			size := pool.Size()
+			if size < 0 || size > liveAtCreation+int(addsStarted.Load()) {
+				violate("size-mismatch", fmt.Sprintf("storm: Size()=%d outside [0,%d]", size, liveAtCreation+int(addsStarted.Load())))
+			}
+			if wasReturned && size != 0 {
+				violate("size-nonzero-after-cancel", fmt.Sprintf("storm: Size()=%d after Cancel returned", size))
+			}
+			runtime.Gosched()
+		}
+	}()
+	fin := make(chan struct{})
+	go func() { wg.Wait(); close(fin) }()
+	select {
+	case <-fin:
+	case <-time.After(opDeadline):
+		violate("op-timeout", "storm: Add/Cancel/ends did not finish within the deadline")
+	}
+	close(stopPoll)
+	pollWG.Wait()
+	quiet, alive, _ := settle()
+	done := pool.Err() != nil
+	allEnded := true
+	for id := range offered {
+		if !ctxs[id].started.Load() {
+			allEnded = false
+		}
+	}
+	if done {
+		out.doneAfter = true
+	}
+	out.sawLive = true
+	if !done && (cancelReturned.Load() || allEnded) {
+		violate("not-done-after-all-ended", fmt.Sprintf("storm: Cancel returned=%v, every offered context ended=%v, watcher quiet=%v alive=%v, but the pool context is not done", cancelReturned.Load(), allEnded, quiet, alive))
+	}
+	if done && !cancelStarted.Load() {
+		for i := range member {
+			if member[i].Load() && !ctxs[i].started.Load() {
+				violate("done-while-member-live", fmt.Sprintf("storm (final): pool context done although member ctx%d has not ended", i))
+			}
+		}
+	}
+	if quiet && done && alive {
+		violate("watcher-leak", "storm: pool context done but the watcher goroutine still exists")
+	}
+	if quiet && !done && !alive {
+		violate("watcher-gone-pool-live", "storm: watcher gone but pool context live")
+	}
+	out.hits = append(out.hits, fmt.Sprintf("storm:done=%v,cancel=%v,allEnded=%v", done, cancelAt >= 0, allEnded))
+	if polls > 0 {
+		out.hits = append(out.hits, "storm:polled")
+	}
+	// cleanup
+	call(func() { pool.Cancel() })
+	for _, x := range ctxs {
+		x.cancel()
+	}
+	if q, a, _ := settle(); !q || a || pool.Err() == nil {
+		violate("not-done-after-all-ended", "storm cleanup: after Cancel the pool context is not done or its watcher still exists")
+	}
+	ids := make([]string, 0, len(viols))
+	for id := range viols {
+		ids = append(ids, id)
+	}
+	sort.Strings(ids)
+	for _, id := range ids {
+		out.viols = append(out.viols, viol{id, viols[id]})
+	}
+	return out
+}
+
 // ---------------------------------------------------------------- generators
 
 func perms(xs []int) [][]int {
@@ -727,6 +973,45 @@ func genCases(tier string, seed uint64, search bool) []*Case {
 			}
 		}
 	}
+	// F2b (thorough): two inserted operations at every pair of positions, pools of ≤ 3 contexts
+	if tier == "thorough" || search {
+		shift := func(ops []Op) []Op {
+			out := make([]Op, len(ops))
+			for i, o := range ops {
+				o2 := o
+				o2.C = nil
+				for _, c := range o.C {
+					if c >= 5 {
+						c += 5
+					}
+					o2.C = append(o2.C, c)
+				}
+				out[i] = o2
+			}
+			return out
+		}
+		for _, b := range bs {
+			if len(b.init) > 3 {
+				continue
+			}
+			for p1 := 0; p1 <= len(b.order); p1++ {
+				for p2 := p1; p2 <= len(b.order); p2++ {
+					for _, n1 := range names {
+						for _, n2 := range names {
+							ops := append([]Op{}, endOps(b.order[:p1])...)
+							ops = append(ops, ins[n1]...)
+							ops = append(ops, endOps(b.order[p1:p2])...)
+							ops = append(ops, shift(ins[n2])...)
+							ops = append(ops, endOps(b.order[p2:])...)
+							ops = append(ops, tail()...)
+							ops = append(ops, Op{K: "end", C: []int{10, 12}})
+							cs = append(cs, &Case{Family: "insert2:" + n1 + "+" + n2, Init: b.init, Ended: b.ended, Ops: ops})
+						}
+					}
+				}
+			}
+		}
+	}
 	// F3: forced schedules.  Park the watcher right after the select that saw member order[j] end
 	// (pool.watch.afterWait), or between its last RUnlock and cancel() (pool.watch.beforeCancel),
 	// run an operation there, release.
@@ -796,6 +1081,39 @@ func genCases(tier string, seed uint64, search bool) []*Case {
 		ops = append(ops, Op{K: "race", C: []int{b.order[m-1], a}})
 		ops = append(ops, tail()...)
 		cs = append(cs, &Case{Family: "race", Init: b.init, Ended: b.ended, Ops: ops})
+	}
+	// F6: storms (monitors only)
+	nStorm := 300
+	if tier == "thorough" {
+		nStorm = 6000
+	}
+	if search {
+		nStorm *= 10
+	}
+	for i := 0; i < nStorm; i++ {
+		b := bs[rng.Intn(len(bs))]
+		var ops []Op
+		order := append([]int{}, b.order...)
+		nAdd := rng.Range(0, 5)
+		for j := 0; j < nAdd; j++ {
+			id := 5 + j
+			ops = append(ops, Op{K: "add", C: []int{id}})
+			if rng.Intn(3) != 0 {
+				order = append(order, id)
+			}
+		}
+		// shuffle the ends
+		for j := len(order) - 1; j > 0; j-- {
+			k := rng.Intn(j + 1)
+			order[j], order[k] = order[k], order[j]
+		}
+		ops = append(ops, endOps(order)...)
+		if rng.Intn(5) == 0 {
+			// position of the Cancel op = number of yields before it
+			pos := rng.Intn(len(ops) + 1)
+			ops = append(ops[:pos], append([]Op{{K: "cancel"}}, ops[pos:]...)...)
+		}
+		cs = append(cs, &Case{Family: "storm", Init: b.init, Ended: b.ended, Ops: ops, Seed: rng.U64()})
 	}
 	// F5: random operation sequences over contexts 0..9 (including malformed shapes for a pool's
 	// life: operations after Cancel, release without park, arms that never trigger, duplicates)
@@ -1148,7 +1466,7 @@ func main() {
 							map[string]any{"case": r.c, "trace": r.out.Lines, "at_line": i}, a, l)
 					}
 				}
-				if !rejected {
+				if !rejected && len(r.out.Lines) > 0 {
 					res.Traces++
 				}
 			}
